@@ -31,7 +31,7 @@ LEVEL_NOTE = ("Trusts the 15-line definitional oracle (models/search.py) and CPy
               "'closest' is additionally judged by exact rational distances; disagreements that are pure float rounding "
               "of the two distances are the known finding K2 (KNOWN-FINDING line, exit 0).")
 TECHNIQUE = "runtime post-condition monitor on the real functions vs definitional oracle; exhaustive small scope + random"
-REQUIRED_MONITORS = ["threads:search", "search_post:lower", "search_post:higher", "search_post:closest"]
+REQUIRED_MONITORS = ["threads:search", "c10:asked_twice", "search_post:lower", "search_post:higher", "search_post:closest"]
 ASSUMPTIONS = ["queries non-empty and non-decreasing, array strictly increasing (the property's quantifier)",
                "empty query lists are outside the statement ('each query') and are not exercised"]
 LATTICE = [v / 2.0 for v in range(-2, 16)]
@@ -98,11 +98,19 @@ def _call(sau, strategy, fill, x, q, via_dispatch, form=0):
     return sau.find_closest_lower_or_higher_element_indices_to_values(x, q)
 
 
-def _one(ctx, sau, case, x, q, strategy, fill, via_dispatch, form=0):
+def _one(ctx, sau, case, x, q, strategy, fill, via_dispatch, form=0, twice=False):
     Slot.case = case
     before = ctx.monitors.get("search_post:" + strategy, 0)
     try:
-        _call(sau, strategy, fill, x, q, via_dispatch, form)
+        first = _call(sau, strategy, fill, x, q, via_dispatch, form)
+        if twice and isinstance(first, np.ndarray) and first.flags.writeable and first.size:
+            # the caller adjusts the returned indices in place (idx += 1, clamp, offset) and asks the same question
+            # again: the second answer (judged by the same post-condition) is its own array with the same content
+            first += 7
+            second = _call(sau, strategy, fill, x, q, via_dispatch, form)
+            ctx.monitor("c10:asked_twice")
+            if isinstance(second, np.ndarray) and np.shares_memory(first, second):
+                ctx.violation("search:%s:answer_shared_between_requests" % strategy, case, {"x": x, "lookup": q})
     except Exception as e:
         ctx.exception("search:%s:raised" % strategy, case, e, {"x": x, "lookup": q, "fill": fill})
         ctx.judged()
@@ -279,7 +287,7 @@ def run_random_case(ctx, sau, kind, idx):
     qq = qs if (cont != 2 or isinstance(qs, list)) else [v.item() for v in qs]
     form = int(rng.integers(0, 3))
     case = ctx.case_id(kind, idx, strategy=strategy, fill=fill, dispatch=via)
-    _one(ctx, sau, case, xx, qq, gen.fresh_str(rng, strategy), fill, via, form)
+    _one(ctx, sau, case, xx, qq, gen.fresh_str(rng, strategy), fill, via, form, twice=bool(rng.integers(0, 6) == 0))
     qf = np.asarray(qs, dtype=float)
     if len(x) == 1 or np.any((qf > float(x[0])) & (qf < float(x[-1]))):
         ctx.nontriv("rnd", idx, strategy, fill)
